@@ -311,6 +311,23 @@ Fixpoint obs_match (ops : list op) (l1 l2 : list ob) : bool :=
   | _, _, _ => false
   end.
 
+(** ---------- compact byte strings of the cases files ----------
+    The harness draws file contents and payloads from the deterministic streams
+    [gen seed i] (never 0, so zero-fill is distinguishable) and writes every byte
+    string -- inputs and observed outputs alike -- as a list of segments; [ex]
+    expands it to the literal bytes.  (Pure encoding: [SLit] can express any string.) *)
+Definition gen (seed i : Z) : Z := 1 + ((seed * 131 + i * 7 + (i / 255) * 3) mod 255).
+Inductive seg := SGen (seed off cnt : Z) | SZero (cnt : Z) | SLit (l : list Z).
+Fixpoint gen_run (seed off : Z) (cnt : nat) : list Z :=
+  match cnt with O => [] | S k => gen seed off :: gen_run seed (off + 1) k end.
+Definition ex1 (g : seg) : list Z :=
+  match g with
+  | SGen seed off cnt => gen_run seed off (Z.to_nat cnt)
+  | SZero cnt => zeros cnt
+  | SLit l => l
+  end.
+Definition ex (l : list seg) : list Z := concat (map ex1 l).
+
 (** ---------- the correspondence case ---------- *)
 (** [c_hint]: findings that live below the byte level cannot be replayed by this model; the
     harness recognises their signature on the Go side and passes the finding's index here:
